@@ -10,28 +10,52 @@ struct It {
     key: u64, // strictly increasing along the sequence (never touched by modifications): split_by(|it| it.key < K) is prefix-monotone
     x: u64,
     sm: u64,
+    h: u64, // order-sensitive aggregate: sum of x_i * B^(len-1-i) - the fold of a NON-commutative merge (a mirrored subsequence changes it)
+    g: u64, // sum of B^(len-1-i): what a pending `+ c` contributes to h per unit of c
     sz: usize,
     a: u64,
     c: u64,
 }
 impl It {
     fn new(x: u64) -> Self {
-        It { key: 0, x, sm: x, sz: 1, a: 1, c: 0 }
+        It { key: 0, x, sm: x, h: x, g: 1, sz: 1, a: 1, c: 0 }
     }
     fn keyed(x: u64, key: u64) -> Self {
-        It { key, x, sm: x, sz: 1, a: 1, c: 0 }
+        It { key, x, sm: x, h: x, g: 1, sz: 1, a: 1, c: 0 }
     }
     fn modify(&mut self, a: u64, c: u64) {
         self.x = (a * self.x + c) % P;
         self.sm = (a * self.sm + c * self.sz as u64) % P;
+        self.h = (a * self.h + c * self.g) % P;
         self.a = a * self.a % P;
         self.c = (a * self.c + c) % P;
     }
+}
+const B: u64 = 911;
+fn pw(mut k: u64) -> u64 {
+    let (mut r, mut b) = (1u64, B);
+    while k > 0 { if k & 1 == 1 { r = r * b % P; } b = b * b % P; k >>= 1; }
+    r
+}
+impl It {
+    /// the aggregate compared with the model: sum (low half) and order-sensitive hash (high half)
+    fn ag(&self) -> u64 { self.sm + (self.h << 32) }
+}
+/// sum and order-sensitive hash of a plain sequence
+fn want(v: &[u64]) -> u64 {
+    let mut h = 0u64;
+    for &x in v { h = (h * B + x) % P; }
+    v.iter().sum::<u64>() % P + (h << 32)
 }
 impl TreapItem for It {
     fn update(&mut self, l: Option<&Self>, r: Option<&Self>) {
         self.sm = (l.map(|i| i.sm).unwrap_or(0) + self.x + r.map(|i| i.sm).unwrap_or(0)) % P;
         self.sz = l.map(|i| i.sz).unwrap_or(0) + 1 + r.map(|i| i.sz).unwrap_or(0);
+        let szr = r.map(|i| i.sz).unwrap_or(0) as u64;
+        let (hl, gl) = l.map(|i| (i.h, i.g)).unwrap_or((0, 0));
+        let (hr, gr) = r.map(|i| (i.h, i.g)).unwrap_or((0, 0));
+        self.h = (hl * pw(szr + 1) % P + self.x * pw(szr) % P + hr) % P;
+        self.g = (gl * pw(szr + 1) % P + pw(szr) + gr) % P;
     }
     fn push(&mut self, l: Option<&mut Self>, r: Option<&mut Self>) {
         if let Some(l) = l {
@@ -131,9 +155,9 @@ fn exec(ops: &[Op], heap_only: bool) -> Option<(String, String)> {
                     let r = l + r % (v.len() - l);
                     let (t1, t23) = std::mem::replace(&mut t, Treap::new()).split_at(l);
                     let (t2, t3) = t23.split_at(r - l + 1);
-                    let got = t2.root().map(|i| i.sm).unwrap_or(0);
+                    let got = t2.root().map(|i| i.ag()).unwrap_or(0);
                     let gsz = t2.size();
-                    let want = v[l..=r].iter().sum::<u64>() % P;
+                    let want = want(&v[l..=r]);
                     t = Treap::merge(Treap::merge(t1, t2), t3);
                     if (got != want || gsz != r - l + 1) && !heap_only {
                         return Some((format!("aggregate of the split-out part [{}..={}] = {} (size {})", l, r, got, gsz), format!("{} (size {})", want, r - l + 1)));
@@ -166,13 +190,13 @@ fn exec(ops: &[Op], heap_only: bool) -> Option<(String, String)> {
                     let ga: Vec<u64> = a.collect().iter().map(|i| i.x).collect();
                     let gb: Vec<u64> = b.collect().iter().map(|i| i.x).collect();
                     let (sa, sb) = (a.size(), b.size());
-                    let (ra, rb) = (a.root().map(|i| i.sm).unwrap_or(0), b.root().map(|i| i.sm).unwrap_or(0));
+                    let (ra, rb) = (a.root().map(|i| i.ag()).unwrap_or(0), b.root().map(|i| i.ag()).unwrap_or(0));
                     t = Treap::merge(a, b);
                     if !heap_only {
                         if ga != v[..k] || gb != v[k..] {
                             return Some((format!("split_by(first {} elements) = {:?} | {:?}", k, ga, gb), format!("{:?} | {:?}", &v[..k], &v[k..])));
                         }
-                        if (sa, sb) != (k, v.len() - k) || ra != v[..k].iter().sum::<u64>() % P || rb != v[k..].iter().sum::<u64>() % P {
+                        if (sa, sb) != (k, v.len() - k) || ra != want(&v[..k]) || rb != want(&v[k..]) {
                             return Some((format!("split_by(first {}) sizes ({}, {}) aggregates ({}, {})", k, sa, sb, ra, rb), "sizes and folds of the two subsequences".into()));
                         }
                     }
@@ -188,8 +212,8 @@ fn exec(ops: &[Op], heap_only: bool) -> Option<(String, String)> {
             if !heap_only && t.size() != v.len() {
                 return Some((format!("size() = {}", t.size()), format!("{}", v.len())));
             }
-            if !heap_only && t.root().map(|i| i.sm).unwrap_or(0) != v.iter().sum::<u64>() % P {
-                return Some((format!("root aggregate {}", t.root().map(|i| i.sm).unwrap_or(0)), format!("{}", v.iter().sum::<u64>() % P)));
+            if !heap_only && t.root().map(|i| i.ag()).unwrap_or(0) != want(&v) {
+                return Some((format!("root aggregate {}", t.root().map(|i| i.ag()).unwrap_or(0)), format!("{}", want(&v))));
             }
             if !heap_only && steps_left == 0 {
                 let got: Vec<u64> = t.collect().iter().map(|i| i.x).collect();
@@ -204,9 +228,9 @@ fn exec(ops: &[Op], heap_only: bool) -> Option<(String, String)> {
                 if f != v.first().copied() || l != v.last().copied() {
                     return Some((format!("first/last = {:?}/{:?}", f, l), format!("{:?}/{:?}", v.first(), v.last())));
                 }
-                let rs = t.root().map(|i| i.sm).unwrap_or(0);
-                if rs != v.iter().sum::<u64>() % P {
-                    return Some((format!("root aggregate {}", rs), format!("{}", v.iter().sum::<u64>() % P)));
+                let rs = t.root().map(|i| i.ag()).unwrap_or(0);
+                if rs != want(&v) {
+                    return Some((format!("root aggregate {}", rs), format!("{}", want(&v))));
                 }
             }
             let _ = &mut dir;
@@ -265,6 +289,12 @@ fn height_bound(n: usize) -> usize { (5.0 * ((n + 1) as f64).log2() + 20.0).floo
 /// recursive split / merge could exhaust the stack).  family: 0 sorted appends, 1 repeated front insertion, 2 split-and-swap rotations,
 /// 3 appends interleaved with removals of the front, 4 merges of single-node treaps from the left
 fn height_case(family: u64, n: usize) -> Option<(String, String)> {
+    if family >= 200 {
+        return roundrobin_case(family - 200, n);
+    }
+    if family >= 100 {
+        return stride_case(family - 100, n);
+    }
     let r = guarded(|| {
         let mut t: Treap<It> = Treap::new();
         let mut len = 0usize;
@@ -297,6 +327,58 @@ fn height_case(family: u64, n: usize) -> Option<(String, String)> {
     match r { Ok(x) => x, Err(e) => Some((e, "no panic".into())) }
 }
 
+/// C16, height clause, structure of the priority stream (BOUNDED): a program that keeps 2^k treaps and feeds them round-robin gives each
+/// of them every 2^k-th priority the process-wide generator produces.  Build one treap of `n` sorted appends from every 2^k-th created
+/// node (the nodes in between are created and dropped) and compare its height with the bound: priorities whose low bits cycle, or that
+/// form an arithmetic progression at some stride, degenerate such a treap although a single treap fed consecutively looks balanced.
+fn stride_case(k: u64, n: usize) -> Option<(String, String)> {
+    let r = guarded(|| {
+        let stride = 1usize << k;
+        let mut t: Treap<It> = Treap::new();
+        for i in 0..n {
+            t.insert_at(i, It::new(i as u64));
+            for _ in 1..stride {
+                let _skipped = TreapNode::new(It::new(0));
+            }
+            if (i + 1) % 64 == 0 || i + 1 == n {
+                let (h, b) = (height(&t.root), height_bound(i + 1));
+                if h > b { return Some((format!("height {} with {} elements when the treap receives every {}-th created node", h, i + 1, stride), format!("at most 5*log2(n+1)+20 = {}", b))); }
+            }
+        }
+        None
+    });
+    match r { Ok(x) => x, Err(e) => Some((e, "no panic".into())) }
+}
+
+/// the same with every residue class observed: 2^k treaps fed round-robin by sorted appends, `rounds` elements each; every one of
+/// them must respect the bound (a weak priority source typically spoils only some residue classes)
+fn roundrobin_case(k: u64, rounds: usize) -> Option<(String, String)> {
+    let r = guarded(|| {
+        let cnt = 1usize << k;
+        let mut ts: Vec<Treap<It>> = (0..cnt).map(|_| Treap::new()).collect();
+        for i in 0..rounds {
+            for t in ts.iter_mut() {
+                t.insert_at(i, It::new(i as u64));
+            }
+            if (i + 1) % 128 == 0 || i + 1 == rounds {
+                let b = height_bound(i + 1);
+                let mut worst = (0usize, 0usize);
+                let mut over = 0usize;
+                for (j, t) in ts.iter().enumerate() {
+                    let h = height(&t.root);
+                    if h > b { over += 1; }
+                    if h > worst.0 { worst = (h, j); }
+                }
+                if over > 0 {
+                    return Some((format!("{} of {} treaps fed round-robin exceed the bound with {} elements each; the worst is treap {} with height {}", over, cnt, i + 1, worst.1, worst.0), format!("at most 5*log2(n+1)+20 = {}", b)));
+                }
+            }
+        }
+        None
+    });
+    match r { Ok(x) => x, Err(e) => Some((e, "no panic".into())) }
+}
+
 pub fn run(seed: u64, replay: Option<String>, heap_only: bool) -> Outcome {
     if let Some(r) = &replay {
         if let Some(rest) = r.strip_prefix("height;") {
@@ -320,6 +402,20 @@ pub fn run(seed: u64, replay: Option<String>, heap_only: bool) -> Outcome {
             cases += 1;
             if let Some((o, e)) = height_case(family, n) {
                 return Outcome { cex: Some(Cex { input: format!("height;{};{}", family, n), observed: o, expected: e }), cases };
+            }
+        }
+        let (kmax, m) = if n >= 1_000_000 { (19u64, 384usize) } else { (16u64, 384usize) };
+        let rr: &[(u64, usize)] = if n >= 1_000_000 { &[(10, 1000), (13, 500), (12, 1000), (16, 100)] } else { &[(10, 1000), (13, 500)] };
+        for &(k, rounds) in rr {
+            cases += 1;
+            if let Some((o, e)) = height_case(200 + k, rounds) {
+                return Outcome { cex: Some(Cex { input: format!("height;{};{}", 200 + k, rounds), observed: o, expected: e }), cases };
+            }
+        }
+        for k in 1..=kmax {
+            cases += 1;
+            if let Some((o, e)) = height_case(100 + k, m) {
+                return Outcome { cex: Some(Cex { input: format!("height;{};{}", 100 + k, m), observed: o, expected: e }), cases };
             }
         }
     }
